@@ -15,21 +15,23 @@ LEVEL = "model_checking"
 ENGINE = "E-HIST"
 TECHNIQUE = "explicit-state breadth-first search over call histories on real client objects (states rebuilt by replay from a reset process state, deduplicated by a fingerprint of client, model registers, shared argument objects and process globals; differential invariant on every transition) plus an exhaustive interpreter matrix over hash seeds"
 RULE = (
-    "(a) operations run(A) nonparametric / run(B) gaussian / run(C) bootstrap with cross-validated lambda, summary(), fresh-client, perturb-globals "
+    "(a) operations run(A) nonparametric / run(B) gaussian / run(C) bootstrap with cross-validated lambda / run(D) nonparametric with the outlier models enabled, summary(), fresh-client, perturb-globals "
     "(advance numpy's and random's global generators, reorder warnings.filters, touch DEFAULT_AGGREGATES), with argument objects (baseline frame, feed "
-    "frame, config dict, parameter dict, lists) shared between calls or copied: every history up to depth D (6+36+216 at D=3) explored breadth-first "
+    "frame, config dict, parameter dict, lists) shared between calls or copied: every history up to depth D (7+49+343 at D=3) explored breadth-first "
     "per first operation; invariant: every run(X)/summary() returns tables bit-identical to the reference for X. (b) the references are reproduced in "
     "fresh interpreters with PYTHONHASHSEED in {0,1,2,12345}, twice each, including the historical client, and must all agree. (c) changing the seed "
     "setting changes some cell for every estimator. non-trivial = the history contains at least two operations"
 )
 ASSUMPTIONS = ["process state is reset before each replay (numpy/random global state, warnings.filters, DEFAULT_AGGREGATES); truly fresh interpreters are covered by (b)"]
-OPS = ["run:A", "run:B", "run:C", "summary", "fresh", "perturb"]
+OPS = ["run:A", "run:B", "run:C", "run:D", "summary", "fresh", "perturb"]
 SELFCHECK_INDEX = 0
 
 ARGSETS = {
     "A": dict(pi_method="nonparametric", estimands=["turnout", "dem"], alphas=[0.7], aggregates=["postal_code", "county_fips", "unit"], features=[E.FEATURE], model_parameters={}),
     "B": dict(pi_method="gaussian", estimands=["turnout"], alphas=[0.7, 0.9], aggregates=["postal_code", "county_classification", "unit"], features=[], fixed_effects={"county_classification": ["all"]}, model_parameters={}),
     "C": dict(pi_method="bootstrap", estimands=["margin"], alphas=[0.9], aggregates=["postal_code", "unit"], features=["baseline_normalized_margin"], model_parameters={"B": 20}),
+    # D: the public defaults for the outlier models (both enabled)
+    "D": dict(pi_method="nonparametric", estimands=["turnout"], alphas=[0.7], aggregates=["postal_code", "unit"], features=[], model_parameters={"fit_margin_outlier_model": True, "fit_turnout_outlier_model": True}),
 }
 
 
@@ -58,8 +60,19 @@ def describe(case):
 
 def election(seed):
     units = E.background(seed, "G", 26, "AABB", partial=4)
+    # turnout growth follows the baseline margin (so an outlier model that happens to see a baseline-margin column
+    # explains it, one that does not sees a wide spread); one unit is off that line
+    for i, u in enumerate(units):
+        if u["pev"] >= 100:
+            bnm = (u["b_dem"] - u["b_gop"]) / (u["b_dem"] + u["b_gop"])
+            f = 1 + 0.6 * bnm + (0.3 if i == 5 else 0.0)
+            two = u["r_dem"] + u["r_gop"]
+            u["r_turnout"] = max(two, int(u["b_turnout"] * f))
     units.append(E.make_probe(seed, 0, "nonrep_partial", "pop0"))
     units.append(E.make_probe(seed, 1, "unexpected", "pop1"))
+    # a reporting unit that sits between the eligibility rules under the two weightings: its two-party vote is 56% of its
+    # baseline turnout, turnout grew by 13% (turnout factor 1.13 against turnout, 2.02 against a two-party baseline)
+    units.append(E.make_unit("AAc0_w0", "AA", "AAc0", "r", None, (280, 280, 1000), (316, 316, 1130), 100.0, 0.4))
     return units
 
 
